@@ -1627,6 +1627,17 @@ def classify_loops_and_products(cl, f):
         for v, op, rhs in asg:
             if v in V and op == "*=" and re.match(r"^\s*(0|-\d+)\s*$", rhs):
                 return "F03o:impossible-value-through-multiplication-by-zero-or-negative"
+    if cl["id"] in FLOW_IDS:
+        # F03p: `v = w;` (plain copy) between two occurrences of a comparison that mentions both v and w, v inside arithmetic
+        def cmp_with(n, v, w):
+            if n.kind == "bin" and n.op in CMPS and v in node_vars(n) and w in node_vars(n) and \
+                    any(k.kind != "var" and v in node_vars(k) for k in n.kids):
+                return True
+            return any(cmp_with(k, v, w) for k in n.kids)
+        for v, op, rhs in asg:
+            w = rhs.strip()
+            if op == "=" and re.match(r"^[A-Za-z_]\w*$", w) and w != v and cmp_with(root, v, w):
+                return "F03p:known-comparison-survives-copy-assignment-of-operand"
     if cl["id"] == "oppositeInnerCondition" and loops:
         # F03n: the outer condition is on a copy (`int y = x;`), the inner one on x inside a loop that changes x
         copies = {(v, rhs.strip()) for v, op, rhs in asg if op == "=" and re.match(r"^\s*[A-Za-z_]\w*\s*$", rhs)}
